@@ -286,6 +286,11 @@ def check_property(prop, tier, seed, jobs):
         if res.get("sample_case") is not None and len(samples) < 10:
             samples.append(dict(function=res["contract"], enumerated_case=res["sample_case"]))
         for u in res["undecided"]:
+            hit = _known(open_findings, res, u["obligation"])
+            if hit is not None:
+                # an obligation a recorded finding refutes, left open by the solver this time
+                known_hits.append((hit, res, dict(obligation=u["obligation"], confirmed=False, replay=None)))
+                continue
             undecided.append((res, u))
         for v in res["violations"]:
             oid = "%s|%s|%s" % (res["contract"], res["cfg"], v["obligation"])
